@@ -59,6 +59,7 @@ SEL_MAX = 3.0
 NEG_TOL = 1e-3
 MIG_RESOLVED = 8.0      # m * max(1, largest size) up to which the grids 16..24 resolve migration (no oscillation)
 TF_DEFAULT = 1e-3
+PERM_FLOOR = 5e-5       # label-permutation differences not larger than this at timescale_factor 1e-4: "decreasing" is not judged
 # seconds per implicit step, (dimension, pts) -> (constant parameters, time-dependent parameters); measured in this sandbox
 STEP_COST = {1: {16: (2e-5, 4e-5), 20: (2e-5, 4e-5), 24: (3e-5, 5e-5)},
              2: {16: (4e-5, 1.4e-4), 20: (7e-5, 2.0e-4), 24: (7e-5, 2.3e-4)},
@@ -900,6 +901,10 @@ def perm_check(chk, ctx, byname, name, perm, args, rng, draws=1):
         if e1 < 1e-10 and e2 < 1e-10:
             chk.stat('perm:exact'); continue
         if not e2 < e1:
+            # a difference below PERM_FLOOR at both steps is far inside the splitting-error scale (1e-4 .. 1e-2 at the default step); two
+            # steps cannot show convergence there (error terms of opposite sign: 4.7e-6 -> 1.1e-5 seen on sim_split_no_mig_size) -- not judged
+            if e2 <= PERM_FLOOR:
+                chk.stat('perm:below_floor_not_judged'); continue
             chk.fail('%s:perm:not_decreasing' % name, 'label-permutation difference of %s under %r does not shrink with the time step: %.3e at '
                      'timescale_factor=1e-3, %.3e at 1e-4' % (name, list(perm), e1, e2), inp); return
         chk.stat('perm:ratio_%d' % int(round(min(e1 / e2, 99))))
@@ -1121,7 +1126,7 @@ def perm_at(chk, ctx, m, perm, args, p, ns, where, pts=12):
         chk.fail('%s:perm:large' % name, '%s%r (ns %r) vs %s%r relabelled by %r (new population i = old population perm[i]; ns permuted), %s: '
                  'relative difference %.3e at the default time step — not an operator-splitting error'
                  % (name, v, list(ns), name, vs, list(perm), where, e1), inp); return
-    if e1 > 1e-8 and not e2 < e1:
+    if e1 > 1e-8 and not e2 < e1 and e2 > PERM_FLOOR:
         chk.fail('%s:perm:not_decreasing' % name, 'label-permutation difference of %s under %r, %s, does not shrink with the time step: %.3e at '
                  'timescale_factor=1e-3, %.3e at 1e-4' % (name, list(perm), where, e1, e2), inp)
 
@@ -1343,7 +1348,10 @@ def _run(chk, ctx):
                     'nesting pairs that need algebra beyond 1*x = x (e.g. IM at s -> 1-s under label swap, bottlegrowth at nuF = nuB) are not claimed',
                     'that the real primitives are permutation-lawful (PermLawful: up to the operator-splitting error, L3 on the three-population entries) '
                     'and scale-lawful (PrimScaleLawful: property C03, proved there per primitive); label permutation of the three admix_origin models '
-                    '(needs f -> 1-f) is not claimed']
+                    '(needs f -> 1-f) is not claimed',
+                    'that the real primitives are boundary-lawful (BoundaryLawful: a size function that is constant gives the same result as the '
+                    'constant; IEEE arithmetic obeys x-x = 0, x*0 = 0, 0/x = 0, 1**x = 1, exp 0 = 1 for finite x) and continuous in their arguments: L3, '
+                    'spectrum on a branch boundary vs a step of 1e-9 off it (<= 1e-5 of the largest entry)']
     chk.assumptions += ['C15: a model function is read as a straight-line program over the primitives (closed statement language of tools/gen_Models.py; '
                         'anything else is a translation failure); the meaning of `let` is substitution (Python floats are pure)',
                         'C15: the dimension table of the primitives (phi_1D: 0->1, phi_1D_to_2D: 1->2, two_pops: 2->2, ...) is read off their names; K checks the '
@@ -1480,7 +1488,10 @@ def _replay(chk, ctx, data):
     elif k == 'swap' and inp.get('model') in byname:
         swap_check(chk, ctx, byname, inp['model'], inp['args'], rng)
     elif k == 'perm' and inp.get('model') in byname:
-        perm_check(chk, ctx, byname, inp['model'], inp['perm'], inp['args'], rng, draws=3)
+        if inp.get('params') is not None and inp.get('ns'):
+            perm_at(chk, ctx, byname[inp['model']], inp['perm'], inp['args'], inp['params'], tuple(inp['ns']), 'the recorded point', inp.get('pts', 12))
+        else:
+            perm_check(chk, ctx, byname, inp['model'], inp['perm'], inp['args'], rng, draws=3)
     elif k == 'units' and inp.get('model') in byname:
         units_check(chk, ctx, byname[inp['model']], rng)
     elif k == 'boundary' and inp.get('model') in byname:
